@@ -22,7 +22,9 @@ LEVEL = "proof"
 RULE = ("scripted schedules (1-3 key-ups of 0..4 full frames, final partial frame, release sample, redundant ptt_on, trailing idle samples, "
         "one key-up driven by real 5 s timeouts; consumer delay 0/1/200/1000 us per byte) compared byte for byte with the extracted model and the "
         "extracted specification stream; racy schedules (continuous feeder, PTT toggled at random sample counts 0..4 frames, 1-4 key-ups, consumer "
-        "delay 0/1/1000 us, paced or unpaced feeder) checked by the self-consistency oracle.  A case is one schedule; non-trivial if it emitted at "
+        "delay 0/1/1000 us, paced or unpaced feeder, stalled consumer) and schedules that change the callsigns with source()/dest() between "
+        "key-ups (every key-up must carry the LSF frame and LICH fragments of the pair configured then) checked by the self-consistency "
+        "oracle.  A case is one schedule; non-trivial if it emitted at "
         "least one stream frame; distinct by the emitted bytes.")
 ASSUMPTIONS = ["model = hand-written ImplModulator.v; tie = differential run on this run's schedules + constants regenerated from the source",
                "Codec2 is an oracle in the proofs; in the tie its results come from libcodec2 run by the harness on the same audio",
@@ -149,6 +151,34 @@ def gen_det(ctx):
     t.timeouts = True
     ctx.count("det-timeouts")
     out.append(t)
+    return out
+
+
+def gen_setters(ctx):
+    """repeated key-ups on one modulator whose callsigns are changed with source()/dest() while it is idle: every key-up must carry
+    the LSF (frame and LICH fragments) of the callsigns configured at that time.  Judged by the oracle only (the extracted model
+    takes one pair per run)."""
+    r = ctx.rng.fork("c14-setters")
+    out = []
+    for k in range(12 if ctx.tier == "thorough" else 4):
+        src, dst = rand_call(r), rand_call(r, True)
+        d = Det(src, dst, 0)
+        d.calls = []
+        nk = r.range(2, 4)
+        mode = k % 4                      # 0: dest only, 1: source only, 2: both, 3: random
+        for j in range(nk):
+            if j > 0:
+                ch = {0: "d", 1: "s", 2: "sd"}.get(mode) or r.choice(["d", "s", "sd", ""])
+                if "s" in ch:
+                    src = rand_call(r)
+                    d.ops.append(f"src:{src}")
+                if "d" in ch:
+                    dst = rand_call(r, True)
+                    d.ops.append(f"dst:{dst or '-'}")
+            d.calls.append((src, dst))
+            d.keyup(r, r.choice([1, 2, 6, 7]), 0, r.choice([0, 1, -1]))
+        ctx.count(f"setters-{['dest', 'source', 'both', 'random'][mode]}")
+        out.append(d)
     return out
 
 
@@ -290,9 +320,14 @@ def oracle_streams(ctx, spec, streams):
         res = s["res"]
         b = bytes.fromhex(res["bytes"]) if res.get("bytes", "-") != "-" else b""
         s["raw"] = b
-        plan = {"frames": [], "lsf_q": None}
+        plan = {"frames": [], "lsf_q": None, "lsf_qs": None}
         plan["lsf_q"] = len(asks)
         asks.append(f"lsf {hx(s['dst'])} {hx(s['src'])}")
+        if s.get("calls"):                      # callsigns changed between key-ups with source()/dest()
+            plan["lsf_qs"] = []
+            for sr, ds in s["calls"]:
+                plan["lsf_qs"].append(len(asks))
+                asks.append(f"lsf {hx(ds)} {hx(sr)}")
         lsf = None
         for i in range(0, len(b) - 47, 48):
             f = b[i:i + 48]
@@ -343,9 +378,17 @@ def judge(ctx, s, plan, answers):
     k = 0
     lsf = None
     count = 0
+    ku = -1               # index of the key-up
     for kind, off, info in plan["frames"]:
         where = {"offset": off, "frame": b[off:off + 48].hex()}
         if expect == "P":
+            ku += 1
+            if plan.get("lsf_qs") and ku < len(plan["lsf_qs"]):
+                f = parse_result(answers[plan["lsf_qs"][ku]])
+                want_lsf = bytes.fromhex(f["lsf"])
+                want_lsf_frame = bytes.fromhex(f["frame"])
+                where["keyup"] = ku
+                where["configured_src_dst"] = list(s["calls"][ku])
             if kind != "P":
                 if kind == "S" and off > 0:
                     return bad("modulator-eos-early", "a stream frame follows a frame that carries the end-of-stream bit", **where)
@@ -400,6 +443,9 @@ def replay(ctx, exe):
     t = cmd.split()
     res = run_parallel(ctx, exe, [cmd], 1)[0]
     s = {"name": "replay", "src": t[1], "dst": "" if t[2] == "-" else t[2], "res": parse_result(res), "replay": {"harness_command": cmd}}
+    if rec["replay"].get("callsigns_per_keyup"):
+        s["calls"] = [tuple(x) for x in rec["replay"]["callsigns_per_keyup"]]
+        s["replay"]["callsigns_per_keyup"] = rec["replay"]["callsigns_per_keyup"]
     n = oracle_streams(ctx, SpecEncoder(ctx), [s])
     ctx.case(hashlib.md5(s["raw"]).hexdigest(), True)
     ctx.sample({"replayed": cmd[:200], "result": {k: v for k, v in s["res"].items() if k != "bytes"}, "stream_frames_checked": n})
@@ -423,6 +469,8 @@ def run(ctx):
         slow = bg.submit(run_parallel, ctx, exe, [dets[-1].line()], 1)
         det_res = run_parallel(ctx, exe, [d.line() for d in dets[:-1]], workers)
         rand_res = run_parallel(ctx, exe, [rand_line(c) for c in rands], workers)
+        setters = gen_setters(ctx)
+        set_res = run_parallel(ctx, exe, [d.line() for d in setters], workers)
         # Codec2 reference values for the scripted schedules (one Codec2 instance per modulator run, as in modulate())
         c2_in = []
         for d in dets:
@@ -475,6 +523,9 @@ def run(ctx):
         streams.append({"name": "scripted", "src": d.src, "dst": d.dst, "res": parse_result(l), "replay": {"harness_command": d.line(), "events": ",".join(d.events)}})
     for c, l in zip(rands, rand_res):
         streams.append({"name": "racy", "src": c["src"], "dst": c["dst"], "res": parse_result(l), "replay": {"harness_command": rand_line(c), "case": c}})
+    for d, l in zip(setters, set_res):
+        streams.append({"name": "callsigns-changed-between-key-ups", "src": d.src, "dst": d.dst, "calls": d.calls, "res": parse_result(l),
+                        "replay": {"harness_command": d.line(), "callsigns_per_keyup": d.calls}})
     before = len(ctx.violations)
     nframes = oracle_streams(ctx, spec, streams)
     for s in streams:
@@ -487,7 +538,7 @@ def run(ctx):
                 ctx.violation("modulator-stream-differs-from-spec", "scripted schedule: bytes differ from the specification's stream for the audio fed",
                               {"harness_command": d.line(), "bytes": s["raw"].hex(), "expected": e.hex()})
                 break
-    ctx.coverage["schedules"] = {"scripted": len(dets), "racy": len(rands)}
+    ctx.coverage["schedules"] = {"scripted": len(dets), "racy": len(rands), "callsigns_changed_between_key_ups": len(setters)}
     ctx.coverage["frames_reencoded_by_spec"] = nframes
     ctx.coverage["bytes_collected"] = sum(len(s["raw"]) for s in streams)
     ctx.sample({"scripted": dets[1].line()[:160] + " ...", "events": ",".join(dets[1].events)[:120] + " ...", "nbytes": len(streams[1]["raw"]),
